@@ -17,7 +17,7 @@ META = dict(
     ),
     stubs=["xarray: the real library (object-dtype data and coordinates; only storage and read-back are involved)"],
     assumptions=["REAL theory", "uneven spacing: the perturbation exceeds numpy.allclose's band (1e-8 + 1e-5*spacing) by a factor 3; smaller ones may go either way"],
-    outside=["n > 3", "NaN values", "vdim_mapping (the library documents it is not stored)"],
+    outside=["n > 3 with symbolic geometry (the far-offset harness uses concrete binary64 geometry with up to 64 cells)", "NaN values", "vdim_mapping (the library documents it is not stored)"],
 )
 
 CUSTOM = {1: None, 2: ["a", "b"], 3: ["mx", "my", "mz"], 4: ["p", "q", "r", "t"]}
@@ -149,10 +149,56 @@ def h_partial(sx, cfg):
         return
     sx.check("import-accepted", "nvdim" not in drop and not ("cell" in drop and single))
     _check_equal_field(sx, g, f, pmin, e, n, arr, "import", units="coord-units" not in drop)
+    wide = [a for a in range(nd) if n[a] >= 3]
+    if {"cell", "pmin", "pmax"} <= set(drop) and wide:
+        # history: an array derived from the imported one (every second sample along one axis; xarray keeps the attributes)
+        # is imported next -- it also lacks the geometric attributes, so its mesh follows its own coordinates
+        a0 = wide[0]
+        xa2 = xa.isel({dims[a0]: slice(0, None, 2)})
+        n2 = list(n)
+        n2[a0] = (n[a0] + 1) // 2
+        c0 = e[a0] / n[a0]
+        try:
+            g2 = df.Field.from_xarray(xa2)
+        except Exception as ex:  # noqa: BLE001
+            sx.check("derived-import-accepted", False, exc=f"{type(ex).__name__}: {ex}")
+            return
+        sx.check("derived-n", tuple(int(x) for x in g2.mesh.n) == tuple(n2))
+        sx.check("derived-cell", sx.eq(g2.mesh.cell[a0], 2 * c0))
+        sx.check("derived-corners", sx.And(sx.eq(g2.mesh.region.pmin[a0], pmin[a0] - c0 / 2), sx.eq(g2.mesh.region.pmax[a0], pmin[a0] - c0 / 2 + 2 * c0 * n2[a0])))
+        sel = [slice(None)] * nd
+        sel[a0] = slice(0, None, 2)
+        if tuple(np.shape(g2.array)) == (*n2, nv):
+            sx.check("derived-values", sx.eq(g2.array, arr[tuple(sel)]))
     if "coord-units" in drop:
         sx.check("default-units", tuple(g.mesh.region.units) == ("m",) * nd)
     if "tolerance_factor" in drop:
         sx.check("default-tolerance", g.mesh.region.tolerance_factor == 1e-12)
+
+
+def h_far(sx, cfg):
+    """concrete binary64 geometry far from the origin (coordinates carry rounding of order eps*|x|, far above tolerance*cell),
+    symbolic values: a complete export is imported to an equal field"""
+    df = lib.load()
+    n = tuple(cfg["n"])
+    nd = len(n)
+    nv = cfg["nvdim"]
+    p1, p2 = cfg["box"]
+    mesh = df.Mesh(p1=tuple(p1) if nd > 1 else p1[0], p2=tuple(p2) if nd > 1 else p2[0], n=n if nd > 1 else n[0])
+    arr = sx.real_array("v", (*n, nv))
+    f = df.Field(mesh, nvdim=nv, value=arr)
+    xa = f.to_xarray()
+    for k in cfg.get("drop", []):
+        del xa.attrs[k]
+    try:
+        g = df.Field.from_xarray(xa)
+    except Exception as ex:  # noqa: BLE001
+        sx.check("far-export-accepted", False, exc=f"{type(ex).__name__}: {ex}")
+        return
+    sx.check("far-export-accepted", True)
+    sx.check("far-n", tuple(int(x) for x in g.mesh.n) == n)
+    sx.check("far-mesh-equal", g.mesh == f.mesh)
+    sx.check("far-values", sx.eq(g.array, arr))
 
 
 def h_uneven(sx, cfg):
@@ -273,6 +319,12 @@ def tasks(tier):
         t.append(dict(harness="h_transposed", cfg=dict(n=list(n), nvdim=nv, dims="renamed", units="custom"), limits=big))
     for n, nv in (((2, 2), 1), ((2, 1, 2), 3)):
         t.append(dict(harness="h_roundtrip", cfg=dict(n=list(n), nvdim=nv, units="empty", labels="custom"), limits=big))
+    far = [dict(n=[16], nvdim=1, box=[[1e5], [1e5 + 1.6]]), dict(n=[4, 8], nvdim=2, box=[[-3e4, 2e4], [-3e4 + 2, 2e4 + 2]]), dict(n=[10], nvdim=1, box=[[1e-3], [1e-3 + 1e-8]]),
+           dict(n=[7], nvdim=1, box=[[1e7], [1e7 + 0.7]], drop=["cell"])]
+    if not q:
+        far += [dict(n=[64], nvdim=1, box=[[1e6], [1e6 + 6.4]]), dict(n=[3, 2, 5], nvdim=3, box=[[-1e5 - 0.3, 50.0, 1e3], [-1e5, 50.2, 1e3 + 1e-3]]), dict(n=[12], nvdim=1, box=[[-1e9], [-1e9 + 1.2]], drop=["pmin", "pmax"])]
+    for cfg in far:
+        t.append(dict(harness="h_far", cfg=cfg, limits=big))
     for n, nv in ([((3,), 1), ((2, 2), 3)] if q else [((3,), 1), ((2, 2), 3), ((2, 1, 2), 2), ((1, 2, 1, 2), 1)]):
         t.append(dict(harness="h_dtype", cfg=dict(n=list(n), nvdim=nv)))
     return t
